@@ -153,10 +153,32 @@ Proof.
   destruct (N.eqb (n / 10) 0); [exact Hd|apply IH; exact Hd].
 Qed.
 
-(* N_to_text n consists of ASCII digits and denotes n *)
-Lemma N_to_text_spec n : Forall is_digit (N_to_text n) /\ digits_value 0 (N_to_text n) = n.
+(* no leading zero: the first digit of a non-zero number is not '0' *)
+Lemma digits_fuel_head fuel : forall n acc,
+  n < 2 ^ N.of_nat fuel -> n <> 0 -> hd 48 (digits_fuel fuel n acc) <> 48.
 Proof.
+  induction fuel as [|f IH]; intros n acc Hn Hnz.
+  - cbn [N.of_nat] in Hn. rewrite N.pow_0_r in Hn. lia.
+  - cbn [digits_fuel].
+    pose proof (N.div_mod n 10 ltac:(lia)) as Hdm. pose proof (N.mod_lt n 10 ltac:(lia)) as Hlt.
+    assert (Hq : n / 10 < 2 ^ N.of_nat f).
+    { rewrite Nat2N.inj_succ, N.pow_succ_r' in Hn. apply N.div_lt_upper_bound; lia. }
+    remember (n mod 10) as dg eqn:Hdg. remember (n / 10) as q eqn:Hqq.
+    destruct (N.eqb q 0) eqn:E.
+    + apply N.eqb_eq in E. cbn [hd]. lia.
+    + apply N.eqb_neq in E. apply IH; assumption.
+Qed.
+
+(* N_to_text n consists of ASCII digits, denotes n, and has no leading zero ("0" for zero) *)
+Lemma N_to_text_spec n :
+  Forall is_digit (N_to_text n) /\ digits_value 0 (N_to_text n) = n
+  /\ (n = 0 -> N_to_text n = [48]) /\ (n <> 0 -> hd 48 (N_to_text n) <> 48).
+Proof.
+  assert (Hfuel : n < 2 ^ N.of_nat (S (N.to_nat (N.log2 n)))).
+  { rewrite Nat2N.inj_succ, N2Nat.id. destruct (N.eq_dec n 0) as [->|Hnz]; [reflexivity|].
+    apply N.log2_spec. lia. }
   unfold N_to_text. split; [apply digits_fuel_digits; constructor|].
+  split; [|split; [intros ->; reflexivity | intros Hnz; apply digits_fuel_head; assumption]].
   rewrite digits_fuel_value.
   - cbn [length N.of_nat digits_value]. rewrite N.pow_0_r. lia.
   - rewrite Nat2N.inj_succ, N2Nat.id. destruct (N.eq_dec n 0) as [->|Hnz]; [reflexivity|].
@@ -187,17 +209,18 @@ Variable registered : test_id -> bool.
 Variable test : test_id -> value -> list value -> test_result value.
 Variable lc : lctx.
 Variable max_result_chars : nat.
+Variable max_template_chars : nat.
 
 Notation eval_args' := (eval_args value eval_tpl).
 Notation match_case' := (match_case value eval_tpl to_xtext registered test lc).
-Notation route_via' := (route_via lc max_result_chars).
-Notation route_to_category' := (route_to_category lc max_result_chars).
-Notation route_switch' := (route_switch value eval_tpl to_xtext registered test lc max_result_chars).
-Notation route_timeout' := (route_timeout lc max_result_chars).
-Notation route_random' := (route_random lc max_result_chars).
-Notation route' := (route value eval_tpl to_xtext registered test lc max_result_chars).
-Notation pick_node_exit' := (pick_node_exit value eval_tpl to_xtext registered test lc max_result_chars).
-Notation visit' := (visit value eval_tpl to_xtext registered test lc max_result_chars).
+Notation route_via' := (route_via lc max_result_chars max_template_chars).
+Notation route_to_category' := (route_to_category lc max_result_chars max_template_chars).
+Notation route_switch' := (route_switch value eval_tpl to_xtext registered test lc max_result_chars max_template_chars).
+Notation route_timeout' := (route_timeout lc max_result_chars max_template_chars).
+Notation route_random' := (route_random lc max_result_chars max_template_chars).
+Notation route' := (route value eval_tpl to_xtext registered test lc max_result_chars max_template_chars).
+Notation pick_node_exit' := (pick_node_exit value eval_tpl to_xtext registered test lc max_result_chars max_template_chars).
+Notation visit' := (visit value eval_tpl to_xtext registered test lc max_result_chars max_template_chars).
 
 (* ---- vocabulary of the statement ------------------------------------------------------------------------ *)
 
@@ -234,7 +257,7 @@ Definition named (b : base_router) : bool := match b_result_name b with [] => fa
 Definition result_for (b : base_router) (c : category) (value_ input : text) (extra : option text) : result :=
   {| r_name := b_result_name b; r_value := truncate max_result_chars value_; r_category := c_name c;
      r_category_localized := category_localized (lc_contact lc) (lc_allowed lc) (lc_base lc) (c_tr_name c);
-     r_input := input; r_extra := extra |}.
+     r_input := truncate_ellipsis max_template_chars input; r_extra := bound_extra extra |}.
 
 (* the outcome "left through category c" *)
 Definition through (b : base_router) (prev : option result) (c : category) (value_ input : text)
@@ -667,7 +690,7 @@ Lemma route_switch_saved b operand_tpl cases default prev r :
   exists c u, In c (b_categories b) /\ c_uuid c = u /\ u <> no_uuid
     /\ r_name r = b_result_name b /\ r_category r = c_name c
     /\ r_category_localized r = category_localized (lc_contact lc) (lc_allowed lc) (lc_base lc) (c_tr_name c)
-    /\ r_input r = operand_text operand_tpl
+    /\ r_input r = truncate_ellipsis max_template_chars (operand_text operand_tpl)
     /\ ro_res (route_switch' b operand_tpl cases default prev) = RExit (c_exit c) (operand_text operand_tpl).
 Proof.
   unfold route_switch, operand_text, operand_of.
@@ -679,7 +702,7 @@ Proof.
                /\ r_name r = b_result_name b /\ r_category r = c_name c
                /\ r_category_localized r
                   = category_localized (lc_contact lc) (lc_allowed lc) (lc_base lc) (c_tr_name c)
-               /\ r_input r = text_or_empty (to_xtext operand)
+               /\ r_input r = truncate_ellipsis max_template_chars (text_or_empty (to_xtext operand))
                /\ ro_res (route_to_category' b prev cat mtch (text_or_empty (to_xtext operand)) extra evs)
                   = RExit (c_exit c) (text_or_empty (to_xtext operand))).
   { intros cat mtch extra evs H.
@@ -958,7 +981,8 @@ Lemma switch_result_spec b operand_tpl cases default prev :
       cases = pre ++ c :: post -> Forall (passed_over operand) pre -> matches operand c m x ->
       opt_to_xtext value to_xtext m = Some mt -> category_with b (k_cat c) cat ->
       let r := {| r_name := b_result_name b; r_value := truncate max_result_chars mt; r_category := c_name cat;
-                  r_category_localized := localized cat; r_input := input; r_extra := extra_json x |} in
+                  r_category_localized := localized cat; r_input := truncate_ellipsis max_template_chars input;
+                  r_extra := bound_extra (extra_json x) |} in
       ro_saved R = Some r
       /\ ro_res R = RExit (c_exit cat) input
       (* a run_result_changed event is logged (last) exactly when value or category differ from the previous result *)
@@ -970,7 +994,8 @@ Lemma switch_result_spec b operand_tpl cases default prev :
       b_result_name b <> [] ->
       Forall (passed_over operand) cases -> category_with b default cat ->
       let r := {| r_name := b_result_name b; r_value := truncate max_result_chars input; r_category := c_name cat;
-                  r_category_localized := localized cat; r_input := input; r_extra := None |} in
+                  r_category_localized := localized cat; r_input := truncate_ellipsis max_template_chars input;
+                  r_extra := None |} in
       ro_saved R = Some r /\ ro_res R = RExit (c_exit cat) input)
   (* no category: nothing saved *)
   /\ (Forall (passed_over operand) cases -> default = no_uuid -> ro_saved R = None).
@@ -1290,6 +1315,52 @@ Qed.
 
 End Proofs.
 
+(* ---- the engine's limits on what a router result keeps (not in the statement of C07; C05's clause) ------------------ *)
+
+(* MaxTemplateChars on the saved input: unchanged when it fits; otherwise the first limit-3 characters and "...",
+   or just the first limit characters when there is no room for the ellipsis *)
+Lemma truncate_ellipsis_spec (limit : nat) (t : text) :
+  ((length t <= limit)%nat -> truncate_ellipsis limit t = t)
+  /\ ((limit < length t)%nat -> (3 <= limit)%nat -> truncate_ellipsis limit t = firstn (limit - 3) t ++ [46; 46; 46])
+  /\ ((limit < length t)%nat -> (limit < 3)%nat -> truncate_ellipsis limit t = firstn limit t)
+  /\ (length (truncate_ellipsis limit t) <= limit)%nat.
+Proof.
+  unfold truncate_ellipsis, truncate.
+  destruct (Nat.ltb limit 3) eqn:E3; [apply Nat.ltb_lt in E3|apply Nat.ltb_ge in E3];
+    destruct (Nat.leb (length t) limit) eqn:El; [apply Nat.leb_le in El|apply Nat.leb_gt in El| apply Nat.leb_le in El|apply Nat.leb_gt in El].
+  - repeat split; intros; try lia; reflexivity || exact El.
+  - repeat split; intros; try lia; try reflexivity. rewrite firstn_length. lia.
+  - repeat split; intros; try lia; reflexivity || exact El.
+  - repeat split; intros; try lia; try reflexivity. rewrite app_length, firstn_length. cbn [length]. lia.
+Qed.
+
+(* the extra is kept iff its marshalled JSON has fewer than 10000 bytes (UTF-8) *)
+Lemma bound_extra_spec (x : option text) :
+  bound_extra x = match x with
+                  | Some j => if N.ltb (utf8_len j) 10000 then Some j else None
+                  | None => None
+                  end.
+Proof.
+  destruct x as [j|]; [|reflexivity]. unfold bound_extra, result_extra_max_bytes.
+  destruct (N.leb 10000 (utf8_len j)) eqn:E; [apply N.leb_le in E|apply N.leb_gt in E].
+  - assert (H : N.ltb (utf8_len j) 10000 = false) by (apply N.ltb_ge; exact E). rewrite H. reflexivity.
+  - assert (H : N.ltb (utf8_len j) 10000 = true) by (apply N.ltb_lt; exact E). rewrite H. reflexivity.
+Qed.
+
+Lemma utf8_len_ascii t : Forall (fun c => c < 128) t -> utf8_len t = N.of_nat (length t).
+Proof.
+  induction 1 as [|c rest Hc Hrest IH]; [reflexivity|].
+  cbn [utf8_len length]. unfold utf8_len1. apply N.ltb_lt in Hc. rewrite Hc, IH. lia.
+Qed.
+
+Example truncate_ellipsis_examples :
+  truncate_ellipsis 9 [100;97;114;107;32;114;101;100;32;97;110;100] = [100;97;114;107;32;114;46;46;46]   (* "dark r..." *)
+  /\ truncate_ellipsis 2 [100;97;114;107] = [100;97]
+  /\ truncate_ellipsis 4 [100;97;114;107] = [100;97;114;107]
+  /\ truncate_ellipsis 3 [100;97;114;107] = [46;46;46]
+  /\ utf8_len [233; 8364; 128578; 97] = 10.                                 (* 2 + 3 + 4 + 1 bytes *)
+Proof. repeat split; reflexivity. Qed.
+
 (* ======================================================================================================== *)
 (* The hypotheses of the statements are satisfiable: a concrete instantiation of the oracles and a router     *)
 (* with an erroring case, a non-matching case and two matching cases.                                         *)
@@ -1332,7 +1403,7 @@ Example first_match_hypotheses :
     cases0 = pre ++ c :: post /\ Forall passed pre /\ pre <> []
     /\ matches N ev reg tst lc0 5 c m x /\ opt_to_xtext N tx m = Some mt /\ category_with b0 (k_cat c) ct
     /\ (exists c' m' x', In c' post /\ matches N ev reg tst lc0 5 c' m' x')
-    /\ ro_res (route_switch N ev tx reg tst lc0 640 b0 [5] cases0 13 None) = RExit 22 [5].
+    /\ ro_res (route_switch N ev tx reg tst lc0 640 2000 b0 [5] cases0 13 None) = RExit 22 [5].
 Proof.
   exists [kase 0 5 11; kase 1 6 11], (kase 1 5 12), [kase 2 5 11], (Some 5), ExAbsent, [5], (cat 12 66 22).
   split; [reflexivity|]. split.
@@ -1350,8 +1421,8 @@ Definition cases1 : list case_def := [kase 0 5 11; kase 1 6 11].
 
 Example default_hypotheses :
   Forall passed cases1 /\ category_with b0 13 (cat 13 67 23)
-  /\ ro_res (route_switch N ev tx reg tst lc0 640 b0 [5] cases1 13 None) = RExit 23 [5]
-  /\ ro_res (route_switch N ev tx reg tst lc0 640 b0 [5] cases1 no_uuid None) = RExit no_uuid [5].
+  /\ ro_res (route_switch N ev tx reg tst lc0 640 2000 b0 [5] cases1 13 None) = RExit 23 [5]
+  /\ ro_res (route_switch N ev tx reg tst lc0 640 2000 b0 [5] cases1 no_uuid None) = RExit no_uuid [5].
 Proof.
   split.
   { constructor; [split; [reflexivity|left; reflexivity]|].
@@ -1391,7 +1462,7 @@ Example random_hypotheses :
   (0 <= draw_Q d0 < 1)%Q /\ 0 < N.of_nat (length (b_categories b0))
   /\ NoDup (map c_uuid (b_categories b0))
   /\ random_index d0 3 = 2
-  /\ ro_res (route_random lc0 640 b0 d0 None) = RExit 23 [48; 46; 55].
+  /\ ro_res (route_random lc0 640 2000 b0 d0 None) = RExit 23 [48; 46; 55].
 Proof.
   split; [split; [apply draw_Q_nonneg|apply draw_Q_lt_1; reflexivity]|].
   split; [reflexivity|]. split; [|split; reflexivity].
@@ -1400,7 +1471,7 @@ Qed.
 
 (* a node is left with a segment and a saved result; a node whose router finds no category fails the run *)
 Example consistency_hypotheses :
-  let v := visit N ev tx reg tst lc0 640 AtVisit [31; 32] (nd0 13) false d0 [] None in
+  let v := visit N ev tx reg tst lc0 640 2000 AtVisit [31; 32] (nd0 13) false d0 [] None in
   vo_outcome v = NLeft /\ vo_step_exit v = 22 /\ vo_segment v = Some (22, [5], 32)
   /\ exists res, vo_saved v = Some res /\ r_category res = [66].
 Proof. cbn zeta. repeat split. eexists. split; reflexivity. Qed.
@@ -1423,7 +1494,7 @@ Definition tst' (t : test_id) (op : N) (args : list N) : test_result N :=
   end.
 
 Example rejects_hypotheses :
-  let R cs := ro_res (route_switch N ev tx' reg' tst' lc0 640 b0 [5] (kase 0 5 11 :: cs) 13 None) in
+  let R cs := ro_res (route_switch N ev tx' reg' tst' lc0 640 2000 b0 [5] (kase 0 5 11 :: cs) 13 None) in
   Forall (passed_over N ev reg' tst' lc0 5) [kase 0 5 11]
   /\ (reg' (k_test (kase 9 5 11)) = false /\ R [kase 9 5 11] = RError)
   /\ (case_result N ev tst' lc0 5 (kase 8 5 11) = TOther /\ R [kase 8 5 11] = RPanic)
@@ -1440,23 +1511,33 @@ Qed.
 (* a run that timed out twice: the second timeout result still carries the time of the first timeout *)
 Example second_timeout_records_first :
   scan_timeouts [[49]; [50]] = [49]
-  /\ vo_saved (visit N ev tx reg tst lc0 640 AtResume [31; 32] (nd0 13) true d0 (scan_timeouts [[49]; [50]]) None)
-     = Some (result_for lc0 640 b0 (cat 12 66 22) [49] [] None).
+  /\ vo_saved (visit N ev tx reg tst lc0 640 2000 AtResume [31; 32] (nd0 13) true d0 (scan_timeouts [[49]; [50]]) None)
+     = Some (result_for lc0 640 2000 b0 (cat 12 66 22) [49] [] None).
 Proof. split; reflexivity. Qed.
 
 (* a node left by a router that saves nothing *)
 Example leaves_hypotheses :
   let b := {| b_result_name := []; b_categories := b_categories b0; b_timeout := None |} in
   let r := Switch b [5] cases0 13 in
-  ro_res (router_out N ev tx reg tst lc0 640 r false d0 [] None) = RExit 22 [5] /\ 22 <> no_uuid
-  /\ ro_saved (router_out N ev tx reg tst lc0 640 r false d0 [] None) = None.
+  ro_res (router_out N ev tx reg tst lc0 640 2000 r false d0 [] None) = RExit 22 [5] /\ 22 <> no_uuid
+  /\ ro_saved (router_out N ev tx reg tst lc0 640 2000 r false d0 [] None) = None.
 Proof. cbn zeta. repeat split. discriminate. Qed.
 
 (* a deciding case without category *)
 Example case_without_category_hypotheses :
   matches N ev reg tst lc0 5 (kase 2 5 no_uuid) (Some 7) ExAbsent /\ k_cat (kase 2 5 no_uuid) = no_uuid
-  /\ ro_res (route_switch N ev tx reg tst lc0 640 b0 [5] [kase 2 5 no_uuid] 13 None) = RExit 23 [5].
+  /\ ro_res (route_switch N ev tx reg tst lc0 640 2000 b0 [5] [kase 2 5 no_uuid] 13 None) = RExit 23 [5].
 Proof. repeat split. Qed.
+
+(* the saved input is cut to MaxTemplateChars (here 4: one character and the ellipsis), the operand handed back to the
+   engine for the segment is not *)
+Definition tx5 (v : N) : option text := Some [v; v; v; v; v].
+
+Example input_cut_in_result :
+  let R := route_switch N ev tx5 reg tst lc0 640 4 b0 [5] cases1 13 None in
+  option_map r_input (ro_saved R) = Some [5; 46; 46; 46] /\ ro_res R = RExit 23 [5; 5; 5; 5; 5]
+  /\ option_map r_value (ro_saved R) = Some [5; 5; 5; 5; 5].
+Proof. cbn zeta. repeat split. Qed.
 
 End Demo.
 
@@ -1467,18 +1548,19 @@ Proof. split; [apply truncate_short|apply truncate_long]. Qed.
 Lemma timeout_value_statement :
   forall (value : Type) (eval_tpl : text -> value * (bool * nat)) (to_xtext : value -> option text)
          (registered : test_id -> bool) (test : test_id -> value -> list value -> test_result value)
-         (lc : lctx) (max_result_chars : nat)
+         (lc : lctx) (max_result_chars max_template_chars : nat)
          (site : call_site) (flow_nodes : list uuid) (nd : node) (r : router) (d : draw) (times : list text)
          (prev : option result) (u : uuid) (c : category),
   n_router nd = Some r ->
   b_timeout (router_base r) = Some u -> category_with (router_base r) u c -> c_exit c <> no_uuid ->
   b_result_name (router_base r) <> [] ->
   scan_timeouts times = hd zero_time_text times
-  /\ vo_saved (visit value eval_tpl to_xtext registered test lc max_result_chars site flow_nodes nd true d
+  /\ vo_saved (visit value eval_tpl to_xtext registered test lc max_result_chars max_template_chars site flow_nodes nd
+                     true d
                      (scan_timeouts times) prev)
-     = Some (result_for lc max_result_chars (router_base r) c (hd zero_time_text times) [] None).
+     = Some (result_for lc max_result_chars max_template_chars (router_base r) c (hd zero_time_text times) [] None).
 Proof.
-  intros value eval_tpl to_xtext registered test lc max_result_chars site flow_nodes nd r d times prev u c
+  intros value eval_tpl to_xtext registered test lc max_result_chars max_template_chars site flow_nodes nd r d times prev u c
          Hr Ht Hcat Hex Hn.
   split; [apply scan_timeouts_first|]. eapply timeout_value_spec; eassumption.
 Qed.
